@@ -57,9 +57,23 @@ static void ed_mul_sim_plain(ed_t r, const ed_t p, const bn_t k, const ed_t q,
 	int8_t naf0[RLC_FP_BITS + 1], naf1[RLC_FP_BITS + 1], *_k, *_m;
 	ed_t t0[1 << (RLC_WIDTH - 2)];
 	ed_t t1[1 << (RLC_WIDTH - 2)];
+	bn_t n, a, b;
 	size_t l, l0, l1;
 
+	bn_null(n);
+	bn_null(a);
+	bn_null(b);
+
 	RLC_TRY {
+		bn_new(n);
+		bn_new(a);
+		bn_new(b);
+
+		/* Reduce the scalars modulo the group order. */
+		ed_curve_get_ord(n);
+		bn_mod(a, k, n);
+		bn_mod(b, m, n);
+
 		if (!gen) {
 			for (i = 0; i < (1 << (RLC_WIDTH - 2)); i++) {
 				ed_null(t0[i]);
@@ -84,20 +98,10 @@ static void ed_mul_sim_plain(ed_t r, const ed_t p, const bn_t k, const ed_t q,
 			w = RLC_WIDTH;
 		}
 		l0 = l1 = RLC_FP_BITS + 1;
-		bn_rec_naf(naf0, &l0, k, w);
-		bn_rec_naf(naf1, &l1, m, RLC_WIDTH);
+		bn_rec_naf(naf0, &l0, a, w);
+		bn_rec_naf(naf1, &l1, b, RLC_WIDTH);
 
 		l = RLC_MAX(l0, l1);
-		if (bn_sign(k) == RLC_NEG) {
-			for (i =  0; i < l0; i++) {
-				naf0[i] = -naf0[i];
-			}
-		}
-		if (bn_sign(m) == RLC_NEG) {
-			for (i =  0; i < l1; i++) {
-				naf1[i] = -naf1[i];
-			}
-		}
 
 		_k = naf0 + l - 1;
 		_m = naf1 + l - 1;
@@ -136,6 +140,9 @@ static void ed_mul_sim_plain(ed_t r, const ed_t p, const bn_t k, const ed_t q,
 		for (i = 0; i < 1 << (RLC_WIDTH - 2); i++) {
 			ed_free(t1[i]);
 		}
+		bn_free(n);
+		bn_free(a);
+		bn_free(b);
 	}
 }
 
@@ -175,11 +182,13 @@ void ed_mul_sim_basic(ed_t r, const ed_t p, const bn_t k, const ed_t q,
 void ed_mul_sim_trick(ed_t r, const ed_t p, const bn_t k, const ed_t q,
 		const bn_t m) {
 	ed_t t0[1 << (RLC_WIDTH / 2)], t1[1 << (RLC_WIDTH / 2)], t[1 << RLC_WIDTH];
-	bn_t n;
+	bn_t n, _k, _m;
 	size_t l0, l1, w = RLC_WIDTH / 2;
 	uint8_t w0[RLC_FP_BITS + 1], w1[RLC_FP_BITS + 1];
 
 	bn_null(n);
+	bn_null(_k);
+	bn_null(_m);
 
 	if (bn_is_zero(k) || ed_is_infty(p)) {
 		ed_mul(r, q, m);
@@ -192,8 +201,13 @@ void ed_mul_sim_trick(ed_t r, const ed_t p, const bn_t k, const ed_t q,
 
 	RLC_TRY {
 		bn_new(n);
+		bn_new(_k);
+		bn_new(_m);
 
+		/* Reduce the scalars modulo the group order. */
 		ed_curve_get_ord(n);
+		bn_mod(_k, k, n);
+		bn_mod(_m, m, n);
 
 		for (int i = 0; i < (1 << w); i++) {
 			ed_null(t0[i]);
@@ -208,18 +222,12 @@ void ed_mul_sim_trick(ed_t r, const ed_t p, const bn_t k, const ed_t q,
 
 		ed_set_infty(t0[0]);
 		ed_copy(t0[1], p);
-		if (bn_sign(k) == RLC_NEG) {
-			ed_neg(t0[1], t0[1]);
-		}
 		for (int i = 2; i < (1 << w); i++) {
 			ed_add(t0[i], t0[i - 1], t0[1]);
 		}
 
 		ed_set_infty(t1[0]);
 		ed_copy(t1[1], q);
-		if (bn_sign(m) == RLC_NEG) {
-			ed_neg(t1[1], t1[1]);
-		}
 		for (int i = 1; i < (1 << w); i++) {
 			ed_add(t1[i], t1[i - 1], t1[1]);
 		}
@@ -235,8 +243,8 @@ void ed_mul_sim_trick(ed_t r, const ed_t p, const bn_t k, const ed_t q,
 #endif
 
 		l0 = l1 = RLC_CEIL(RLC_FP_BITS, w);
-		bn_rec_win(w0, &l0, k, w);
-		bn_rec_win(w1, &l1, m, w);
+		bn_rec_win(w0, &l0, _k, w);
+		bn_rec_win(w1, &l1, _m, w);
 
 		ed_set_infty(r);
 		for (int i = RLC_MAX(l0, l1) - 1; i >= 0; i--) {
@@ -251,6 +259,8 @@ void ed_mul_sim_trick(ed_t r, const ed_t p, const bn_t k, const ed_t q,
 	}
 	RLC_FINALLY {
 		bn_free(n);
+		bn_free(_k);
+		bn_free(_m);
 		for (int i = 0; i < (1 << w); i++) {
 			ed_free(t0[i]);
 			ed_free(t1[i]);
@@ -286,6 +296,7 @@ void ed_mul_sim_inter(ed_t r, const ed_t p, const bn_t k, const ed_t q,
 void ed_mul_sim_joint(ed_t r, const ed_t p, const bn_t k, const ed_t q,
 		const bn_t m) {
 	ed_t t[5];
+	bn_t n, _k, _m;
 	int i, u_i, offset;
 	int8_t jsf[2 * (RLC_FP_BITS + 1)];
 	size_t l;
@@ -299,21 +310,27 @@ void ed_mul_sim_joint(ed_t r, const ed_t p, const bn_t k, const ed_t q,
 		return;
 	}
 
+	bn_null(n);
+	bn_null(_k);
+	bn_null(_m);
+
 	RLC_TRY {
+		bn_new(n);
+		bn_new(_k);
+		bn_new(_m);
 		for (i = 0; i < 5; i++) {
 			ed_null(t[i]);
 			ed_new(t[i]);
 		}
 
+		/* Reduce the scalars modulo the group order. */
+		ed_curve_get_ord(n);
+		bn_mod(_k, k, n);
+		bn_mod(_m, m, n);
+
 		ed_set_infty(t[0]);
 		ed_copy(t[1], q);
-		if (bn_sign(m) == RLC_NEG) {
-			ed_neg(t[1], t[1]);
-		}
 		ed_copy(t[2], p);
-		if (bn_sign(k) == RLC_NEG) {
-			ed_neg(t[2], t[2]);
-		}
 		ed_add(t[3], t[2], t[1]);
 		ed_sub(t[4], t[2], t[1]);
 #if defined(ED_MIXED)
@@ -321,11 +338,11 @@ void ed_mul_sim_joint(ed_t r, const ed_t p, const bn_t k, const ed_t q,
 #endif
 
 		l = 2 * (RLC_FP_BITS + 1);
-		bn_rec_jsf(jsf, &l, k, m);
+		bn_rec_jsf(jsf, &l, _k, _m);
 
 		ed_set_infty(r);
 
-		offset = RLC_MAX(bn_bits(k), bn_bits(m)) + 1;
+		offset = RLC_MAX(bn_bits(_k), bn_bits(_m)) + 1;
 		for (i = l - 1; i >= 0; i--) {
 			ed_dbl(r, r);
 			if (jsf[i] != 0 && jsf[i] == -jsf[i + offset]) {
@@ -350,6 +367,9 @@ void ed_mul_sim_joint(ed_t r, const ed_t p, const bn_t k, const ed_t q,
 		RLC_THROW(ERR_CAUGHT);
 	}
 	RLC_FINALLY {
+		bn_free(n);
+		bn_free(_k);
+		bn_free(_m);
 		for (i = 0; i < 5; i++) {
 			ed_free(t[i]);
 		}
